@@ -727,3 +727,109 @@ def whits_lambda(rep: Report, repo: Repo, rule: str = "R-FORMULA"):
     rep.ob(rule, "hdc/algo/accessors.py", "WhittakerSmoother.whits", "lambda = 10**sg when an sgrid is given, else s", okl,
            f"{norm_stmt(lam[0]) if lam else None}: a conversion of the sgrid (np.asarray, .values, .data) drops its dimension labels, and the per-pixel lambda is then "
            f"matched to the pixels by position", lam[0] if lam else "lmda = ...")
+
+
+def r_position_truthy(rep: Report, repo: Repo, fn: ast.FunctionDef, where: str, afile: str = "hdc/algo/accessors.py",
+                      modules: Iterable[str] = ("hdc.algo.accessors", "hdc.algo.utils"), rule: str = "R-TRUTHY") -> int:
+    """An axis position - the result of ``Index.get_indexer``, taken directly or through helpers (nested closures, module-level
+    functions, methods) - has 0 in its domain: the first step of the axis.  ``pos or default`` / ``if not pos`` therefore confuses
+    "the label is the first step" with "no label given".  The only harmless spelling is ``pos or 0`` (None -> 0, 0 -> 0).
+    Returns the number of position-valued expressions examined."""
+    funcs: Dict[str, ast.FunctionDef] = {}
+    for m in modules:
+        try:
+            mod = repo.mod(m)
+        except AnalysisError:
+            continue
+        for st in ast.walk(mod.tree):
+            if isinstance(st, ast.FunctionDef):
+                funcs.setdefault(st.name, st)
+    for n in ast.walk(fn):
+        if isinstance(n, ast.FunctionDef) and n is not fn:
+            funcs[n.name] = n
+
+    def callee_name(c: ast.Call) -> Optional[str]:
+        if isinstance(c.func, ast.Name):
+            return c.func.id
+        if isinstance(c.func, ast.Attribute) and isinstance(c.func.value, ast.Name) and c.func.value.id in ("self", "cls"):
+            return c.func.attr
+        return None
+
+    possrc: Set[str] = set()
+
+    def is_pos_expr(e: ast.AST) -> bool:
+        for c in ast.walk(e):
+            if isinstance(c, ast.Call):
+                if isinstance(c.func, ast.Attribute) and c.func.attr == "get_indexer":
+                    return True
+                if callee_name(c) in possrc:
+                    return True
+        return False
+
+    changed = True
+    while changed:
+        changed = False
+        for name, f in funcs.items():
+            if name in possrc or f is fn:
+                continue
+            rets = [r for r in ast.walk(f) if isinstance(r, ast.Return) and r.value is not None
+                    and not (isinstance(r.value, ast.Constant) and r.value.value is None)]
+            if not rets:
+                continue
+            local_pos = {t.id for st in ast.walk(f) if isinstance(st, ast.Assign) and is_pos_expr(st.value)
+                         for tt in st.targets for t in ast.walk(tt) if isinstance(t, ast.Name)}
+            if any(is_pos_expr(r.value) or any(isinstance(n, ast.Name) and n.id in local_pos for n in ast.walk(r.value)) for r in rets):
+                possrc.add(name)
+                changed = True
+    scopes = [fn] + [n for n in ast.walk(fn) if isinstance(n, ast.FunctionDef) and n is not fn]
+    posnames: Set[str] = set()
+    for st in ast.walk(fn):
+        if isinstance(st, ast.Assign) and is_pos_expr(st.value) and not isinstance(st.value, ast.BoolOp):
+            for tt in st.targets:
+                for t in ast.walk(tt):
+                    if isinstance(t, ast.Name):
+                        posnames.add(t.id)
+
+    def is_pos_operand(v: ast.AST) -> bool:
+        if isinstance(v, ast.UnaryOp) and isinstance(v.op, ast.Not):
+            return is_pos_operand(v.operand)
+        if isinstance(v, ast.Name):
+            return v.id in posnames
+        if isinstance(v, ast.Call):
+            return (isinstance(v.func, ast.Attribute) and v.func.attr == "get_indexer") or callee_name(v) in possrc
+        return False
+
+    bad: List[ast.AST] = []
+    examined = len(posnames)
+    for sc in scopes[:1]:
+        for n in ast.walk(sc):
+            if isinstance(n, ast.BoolOp):
+                vals = n.values
+                for i, v in enumerate(vals):
+                    if not is_pos_operand(v):
+                        continue
+                    examined += 1
+                    harmless = (isinstance(n.op, ast.Or) and len(vals) == 2 and i == 0 and isinstance(vals[1], ast.Constant)
+                                and not isinstance(vals[1].value, bool) and vals[1].value == 0 and not isinstance(v, ast.UnaryOp))
+                    if not harmless:
+                        bad.append(n)
+            elif isinstance(n, (ast.If, ast.While, ast.IfExp, ast.Assert)):
+                t = n.test
+                if is_pos_operand(t):
+                    examined += 1
+                    bad.append(t)
+            elif isinstance(n, ast.UnaryOp) and isinstance(n.op, ast.Not) and is_pos_operand(n.operand):
+                bad.append(n)
+    seen: Set[int] = set()
+    for b in bad:
+        if id(b) in seen:
+            continue
+        seen.add(id(b))
+        rep.ob(rule, afile, where, "an axis position is never tested for truth (position 0 is the first step)", False,
+               f"`{ast.unparse(b)[:140]}` (line {getattr(b, 'lineno', 0)}) uses the truth value of a position obtained from Index.get_indexer"
+               f"{' through ' + '/'.join(sorted(possrc)) if possrc else ''}: a label that resolves to the first step of the axis (position 0) is "
+               f"treated as 'not given' and replaced by the default", b, line=getattr(b, "lineno", 0))
+    if not seen:
+        rep.ob(rule, afile, where, "an axis position is never tested for truth (position 0 is the first step)", True,
+               f"position-valued names {sorted(posnames)}, position-returning helpers {sorted(possrc)}", f"{where}: truth-value uses of axis positions")
+    return examined
